@@ -27,10 +27,16 @@ fn leaf(k: usize) -> E {
         5 => E::call("fail", vec![]),
         6 => E::bin(Op::Gt, E::bin(Op::Add, E::Lit(V::Int(i64::MAX)), E::Lit(V::Int(1))), E::Lit(V::Int(0))),
         7 => E::Select(b(E::Map(vec![])), "k".into()),
-        _ => E::Var("undeclared_u".into()),
+        8 => E::Var("undeclared_u".into()),
+        // comparisons of one and the same plain operand (chains of these look like membership tests)
+        9 => E::bin(Op::Eq, E::Lit(V::Int(1)), E::Lit(V::Int(1))),
+        10 => E::bin(Op::Eq, E::Lit(V::Int(1)), E::bin(Op::Div, E::Lit(V::Int(1)), E::Lit(V::Int(0)))),
+        11 => E::bin(Op::Eq, E::Lit(V::Int(1)), E::Lit(V::Int(2))),
+        12 => E::bin(Op::Ne, E::Lit(V::Int(1)), E::bin(Op::Rem, E::Lit(V::Int(1)), E::Lit(V::Int(0)))),
+        _ => E::bin(Op::Ne, E::Lit(V::Int(1)), E::Lit(V::Int(2))),
     }
 }
-const FULL: usize = 9;
+const FULL: usize = 14;
 const REDUCED: usize = 6;
 
 fn renumber(e: &mut E, next: &mut i64) {
@@ -145,7 +151,7 @@ fn gen_tree(u: &mut Chooser, depth: usize) -> E {
 
 pub fn run(r: &mut Runner) {
     r.rule = "cases: trees over &&, ||, ?: (and !) whose leaves are true/false, error raisers (1/0, overflow, missing key, undeclared name, failing host function) \
-              and logging host calls t(id, bool) with ids in source order; exhaustive to depth 1 over the 9-leaf alphabet and to depth 2 over a 6-leaf alphabet, random \
+              and logging host calls t(id, bool) with ids in source order; exhaustive to depth 1 over the 14-leaf alphabet and to depth 2 over a 6-leaf alphabet, random \
               to depth 4, bare and as bodies of all/exists/exists_one/filter/map, as guard and as guarded transform of the three-argument map. Oracle: the reference evaluator's outcome class and exact ordered host-call log. \
               Non-trivial: an operand containing a host call or a raiser was skipped observably; distinct by (tree, embedding)."
         .into();
